@@ -230,6 +230,14 @@ async fn write_file(fm: &FileManager, file_type: FileType, data: &[u8]) -> Resul
 	file.write_all(data)
 		.await
 		.map_err(|e| Error::from(e).prefix(&path.display().to_string()))?;
+	#[cfg(feature = "breard_r_acmed_verif")]
+	crate::verif::emit(
+		"FileWrite",
+		serde_json::json!({
+			"ftype": file_type.to_string(), "path": path.display().to_string(), "is_new": is_new,
+			"len": data.len(), "sha": crate::verif::sha256_hex(data),
+		}),
+	);
 	if cfg!(unix) {
 		set_owner(fm, &path, file_type).map_err(|e| e.prefix(&path.display().to_string()))?;
 	}
@@ -240,6 +248,21 @@ async fn write_file(fm: &FileManager, file_type: FileType, data: &[u8]) -> Resul
 		hooks::call(fm, &fm.hooks, &hook_data, HookType::FilePostEdit).await?;
 	}
 	Ok(())
+}
+
+#[cfg(feature = "breard_r_acmed_verif")]
+pub async fn verif_write(fm: &FileManager, file_type: &str, data: &[u8]) -> Result<String, Error> {
+	let file_type = match file_type {
+		"account" => FileType::Account,
+		"pk" => FileType::PrivateKey,
+		"crt" => FileType::Certificate,
+		_ => {
+			return Err("unknown file type".into());
+		}
+	};
+	let path = get_file_path(fm, file_type.clone())?;
+	write_file(fm, file_type, data).await?;
+	Ok(path.display().to_string())
 }
 
 pub async fn get_account_data(fm: &FileManager) -> Result<Vec<u8>, Error> {
